@@ -19,7 +19,8 @@ RULE = ('cases = (drawing, element or node, direction, solution kind, display op
         'kind, options); non-trivial = non-zero quantity')
 
 TRUSTED = [
-    'Coq 8.16.1 kernel (formatting model of C18)', 'independent label parser in the harness',
+    'Coq 8.16.1 kernel (formatting model of C18)', 'OCaml extraction of Model.Run.dispatch (fn 14: Model/Annotation.v) + hex driver; label texts '
+    'compared as strings, near-tie rule of C18 (values scaled by 1+-2^-50); abs/angle/phase/degrees/(w/2/pi) are oracle inputs of the model', 'independent label parser in the harness',
     'the solution object held by the adapter is taken as the reference quantity (its correctness is C02/C13)',
 ]
 
@@ -200,6 +201,7 @@ def examine_drawing(ctx, program, rng, ac_w=None):
     except Exception as e:  # noqa: BLE001
         ctx.count(f'adapter-raises-{type(e).__name__}(excluded; C13)')
         return
+    pending = []
     for kind, ad in adapters.items():
         sol = ad.solution.solution          # the Circuit solution object held by the adapter
         pp = getattr(ad.solution, 'precision', 3)
@@ -223,6 +225,7 @@ def examine_drawing(ctx, program, rng, ac_w=None):
                     except Exception as e:  # noqa: BLE001
                         ctx.violation(f'C14:annotation-raises-{type(e).__name__}', f'{kind} {q}({name}): {str(e)[:100]}', rep)
                         continue
+                    pending.append((ad.solution, q, reverse, ref, text, rep))
                     sign = -1 if reverse else 1
                     bad = judge(kind, text, unit, sign * ref, pp, q, ac_w, getattr(sol, 'peak_values', False))
                     for key, what in bad:
@@ -237,9 +240,11 @@ def examine_drawing(ctx, program, rng, ac_w=None):
             except Exception as e:  # noqa: BLE001
                 ctx.violation(f'C14:annotation-raises-{type(e).__name__}', f'{kind} potential({lab})', dict(rep0, node=lab, kind=kind))
                 continue
+            pending.append((ad.solution, 'potential', False, ref, text, dict(rep0, node=lab, kind=kind, precision=pp)))
             for key, what in judge(kind, text, 'V', ref, pp, 'potential', ac_w, getattr(sol, 'peak_values', False)):
                 ctx.violation(key, f'{kind} potential of {lab!r}: {what}', dict(rep0, node=lab, kind=kind, precision=pp))
-    # declarative route: the same drawing built from a description, labels read from the label symbols
+    import annmodel
+    annmodel.correspond(ctx, pending)
     ctx.sample({'program': program, 'ac_w': ac_w}, cap=2)
     plt.close('all')
 
